@@ -1,4 +1,4 @@
-HOOK_COMMITS = ['c1c434b', '878b954']
+HOOK_COMMITS = ['c1c434b', '878b954', '381133b']
 NOTES = ('All checks are driven by bin/check <ID> --tier quick|thorough; exit 0/1/2 as described in DESIGN.md 2.4. '
          'known_findings.json lists recorded defects and fixed ones.')
 NA['C01'] = ('power balance needs numerical integration of the reported pattern over the sphere and a 1.5 % physical '
@@ -10,9 +10,12 @@ check('C12', 'model_checking',
       'the real Mininec constructor under four concretisations of the point ids (exact, jitter below the matching tolerance, near-miss 3 '
       'tolerances away, near-miss 1.25 tolerances along a space diagonal) and the real pulse table, end_segs, per-object pulse lists, the '
       'count formula, gap-free numbering, joint coordinates and the ANTENNA GEOMETRY / WIRE blocks of the real report are compared with the '
-      'prediction of the specification.',
-      'Trusted: TLC, the concretiser (harness/topo.py), the report parser. Wires with equal segmentation only in the replay; arcs and helices '
-      'share the same connection code. Tapered wires (first segment not the shortest) are covered by a separate scenario list.',
+      'prediction of the specification. Further modes: junctions a hair above the ground plane with mixed coarse / fine segmentation, structures '
+      'far from the origin, curve objects (arcs, incl. closed and doubly grounded ones: configurations curve2 / simcurve), tapered wires with a '
+      'separate tolerance scenario list; code->spec: the stored models test/*.pym are built by the real program, projected to point ids and '
+      'checked by TopologyOn.tla (real-model binding).',
+      'Trusted: TLC, the concretiser (harness/topo.py), the report parser. One recorded defect (closed curve whose ends meet on an end of an '
+      'earlier object: assertion in Connected_Geobj.add) is a known finding.',
       'TLC model checking of Topology.tla + exhaustive spec-to-code replay', 'DESIGN.md 4 C12, 3.1')
 
 check('C09', 'model_checking',
@@ -30,7 +33,9 @@ check('C17', 'model_checking',
       'the per-object pulse lists. Binding: every final state is built through the real command line (main) once per valid (k,tag) and '
       'absolute pulse number, per load attachment form (absolute, per object, all-of-object, all) and with a multi-source / multi-load '
       'mixed-form command line; Excitation.idx, load.pulses, the SOURCE/LOAD listings and the geometry-table rows must name the predicted '
-      'pulses, both forms must give bit-identical right-hand sides and (sampled) identical solved reports, invalid numbers must be diagnostics.',
+      'pulses, both forms must give bit-identical right-hand sides and (sampled) identical solved reports, invalid numbers must be diagnostics; '
+      'a skin-effect / insulation load given for one object must cover every pulse with a half segment on it exactly once; exactly the named '
+      'pulses are driven, in any order of naming (a pulse on a grounded end first).',
       'Trusted: TLC, concretiser, report parser. Wires only. Solved-report comparison on a seeded sample (10 % quick, 30 % thorough).',
       'TLC model checking of Topology.tla + spec-to-code replay through main()', 'DESIGN.md 4 C17')
 
@@ -65,7 +70,9 @@ check('C20', 'fault_enumeration',
       'checks ExactlyOneOutcome / StopsAtFirst and dumps every scenario. Each scenario is run through the real main(); the verdict is taken '
       'from the OBSERVED outcome: complete finite report (parsed by the report grammar, no nan/inf token) | exactly one diagnostic line with '
       'return 23 | usage error; anything else (uncaught exception, NaN/inf printed, partial report, several lines with 23, no output) is a '
-      'violation unless it is a recorded known finding (matched by site pattern + exception type + innermost function).',
+      'violation unless it is a recorded known finding (matched by the fault = option / field / value without its base command, exception type and '
+      'innermost function; two-fault scenarios are attributed to the fault that is recorded as failing on its own; NaN gain with non-positive '
+      'input power is identified by that condition).',
       'Trusted: TLC, report parser, in-process execution of main with captured stdout/stderr. The site table is learnt from the code at build '
       'time and committed; a predicted diagnostic that turns out to be a legitimate report (or vice versa) is not a violation because the '
       'property allows either. Unwritable output paths (environment faults) are outside the domain.',
@@ -81,7 +88,8 @@ check('C15', 'model_checking',
       'the first; a sampled fraction is solved and the feed impedances compared (3e-4).',
       'Trusted: TLC, the concretiser and projection in harness/c15.py. Geometry transformations, scaling, media forms and numeric values are '
       'seeded choices of the concretiser, not enumerated by TLC. One recorded defect (load numbering when loads are attached out of kind order) '
-      'is a known finding; TLC produces its counterexample on the variant LoadsInKindOrder = FALSE.',
+      'is a known finding; TLC produces its counterexample on the variant LoadsInKindOrder = FALSE. Command lines whose ORIGINAL the taper '
+      'algorithm cannot build (assertion, recorded under C20) are skipped and counted.',
       'TLC model checking of OptionFile.tla + write/read-back replay through main()', 'DESIGN.md 4 C15')
 
 check('C18', 'model_checking',
@@ -116,7 +124,8 @@ check('C07', 'exploration',
       'addressing forms, seven complex voltage classes, grounded-first and grounded-last registration order): compute_rhs() must equal '
       '-j/m * weight * V entry by entry (1e-13); on a solved fraction the currents must scale with a complex factor, superpose over the sources '
       '(each alone with the others at 0 V), leave impedances and the dBi pattern unchanged under scaling; Excitation.impedance / .power, the '
-      'total power and the SOURCE DATA block must equal V/I and Re(V I*)/2 of the current on the feed pulse.',
+      'total power and the SOURCE DATA block must equal V/I and Re(V I*)/2 of the current on the feed pulse. Half of the cases carry a passive '
+      'lumped load; the same OBJECT is solved again with scaled and restored voltages; the dBi table must not depend on a requested power level.',
       'Exploration level: TLC decides the weights (discrete); the linearity relations are numeric comparisons of implementation outputs with '
       'tolerance 1e-12 * cond(Z). Source sets and voltages are seeded, not exhaustive.',
       'TLC on Circuit.tla for the weights + replay of seeded source sets (exact rhs, solved linearity relations)', 'DESIGN.md 4 C07, 3.3')
@@ -141,7 +150,12 @@ check('C02', 'model_checking',
       'harness replaces Mininec.psi in its own process by the exact line integral of R^2 (polynomial surrogate kernel with the three properties '
       'the fill optimisations rely on; calling contract of psi honoured) and runs the unmodified compute_impedance_matrix(); the expected matrix '
       'is evaluated from the pulse table of spec/Topology.tla (TLC, every configuration) on seeded lattice coordinates, with tapered wires in '
-      'half of the cases; agreement 1e-10 of max|Z|. Exercises the copy / diagonal / lower-triangle optimisations and the image loop.',
+      'half of the cases and long tapered wires with runs of equal segments; agreement 1e-10 of the largest composing term. spec/FillPlan.tla '
+      'models the plan of the fill of one straight object (same-wire shortcut, diagonal copies, mirror copies; TLC invariants '
+      'ShortcutOnlyIfUniform, OriginIsComputed, OriginIsCongruent, CopiedSourceNotGrounded on 1890 objects; the pre-repair variant gives a '
+      'counterexample) and is bound code->spec: the plan of the real fill (hook) of every segmentation the program produces must equal the '
+      'plan of the specification. With the REAL kernel the matrix of an object that was filled at another frequency before (radii crossing the '
+      'thin-wire limit) must equal that of a fresh object.',
       _sur + 'The arithmetic of the formulation is evaluated by harness/lattice.py in floating point (not by TLC); TLC supplies the discrete '
       'pulse table. Radius >= 1e-4 wavelength (every term goes through psi).',
       'TLC pulse tables (Topology.tla) + surrogate-kernel evaluation of the formulation vs the real matrix fill', 'DESIGN.md 4 C02, 1')
@@ -160,7 +174,9 @@ check('C10', 'model_checking',
       '(TLC, every configuration; image terms and the grounded-pulse rule over ground; tapered wires in half of the cases) on seeded lattice '
       'coordinates; the real compute_far_field with injected complex currents must reproduce e_theta / e_phi to 1e-9 of the maximum and the '
       'dBi values to 1e-3 dB at arbitrary directions, powers and distances. Relations: gain = |E|^2 r^2 / (59.96 P) per polarisation between '
-      'the two tables, total = power sum, V/m ~ sqrt(P)/r, rows 360 degrees apart identical, zenith total independent of azimuth.',
+      'the two tables, total = power sum, V/m ~ sqrt(P)/r, rows 360 degrees apart identical, zenith total independent of azimuth. A third of '
+      'the configurations are also SOLVED with two generators 90 degrees apart (one usually absorbing power): the dBi table must be the '
+      'radiation sum of the solved currents over the input power sum Re(V I*)/2 computed by the harness.',
       'The 2 % comparison with the exact integral over the straight half segments is not checked separately: given clause 1 it is a statement '
       'of mathematics (sin(x)/x factor below 0.13 % for segments up to lambda/18). The sum is evaluated in floating point by the harness, TLC '
       'supplies the discrete pulse table.',
@@ -209,7 +225,7 @@ check('C13', 'exploration',
       'growing from the tapered end(s), every length >= max(2.5 r, min) and <= max, end-2 taper is the mirror of end-1 taper, two-sided taper '
       'symmetric; arcs (either sense) on the circle at uniform angles from ang1; helices for every sign of length and turn length, circular / '
       'elliptical, radius-tapered: uniform z, on the (tapered) ellipse, angle and handedness as documented, including the last point; '
-      'transformation programs replayed on wire + arc + helix as in C05 (i).',
+      'transformation programs replayed on wire + arc + helix as in C05 (i); free-space wires with an end a hair off the plane z = 0.',
       'Exploration level; parameter sets the program rejects are not counted (C20). Bounds carry a relative slack of 1e-6.',
       'TLC (Transform.tla, Topology.tla) for order and structure + numeric predicates on the real segmentation', 'DESIGN.md 4 C13')
 check('C11', 'exploration',
